@@ -270,6 +270,8 @@ EXPR_WRAPPERS = {
     # it yields the lines of the named file (spec/io.rs)
     # derived PartialEq of Goal against the variant without fields
     ('solution_node.rs::next_solution', 'body == Goal::Nil'): 'goal_is_nil(&body)',
+    # Vec index + derived Clone of Goal: panics on a not(..) / time(..) without operand (the parsers do not build one); a panic is no return
+    ('goal.rs::make_solution_node', 'goals[0].clone()'): 'first_goal_clone(goals)',
     ('rule_reader.rs::read_facts_and_rules', 'line_reader(file_name)'): 'verif_line_reader(file_name)',
     ('rule_reader.rs::read_facts_and_rules', 'long_line += &line;'): 'str_append_line(&mut long_line, &line);',
 }
@@ -622,6 +624,14 @@ class FnEmitter:
                                 q0 -= 1
                             first = next_sig(toks, q0)
                             simple = toks[nx2].kind == 'p' and toks[nx2].text == ';' and (first == k or (toks[first].kind == 'id' and toks[first].text == 'let'))
+                            is_ret = toks[first].kind == 'id' and toks[first].text == 'return' and next_sig(toks, first) == k
+                            if is_ret:
+                                # `return F(..);`: the block for before the call goes before the statement; what follows the call is
+                                # the function's exit, where the [at returns-value] block of the contract stands
+                                if bc:
+                                    edits.append((toks[first].start, toks[first].start, ('', bc, '\n'), 'block'))
+                                k += 1
+                                continue
                             if not simple:
                                 raise Undecided('unsupported construct: the call of %s in %s is not a statement of its own (contract has [before/after heap-call %s])' % (t.text, key, t.text))
                             if bc:
@@ -630,6 +640,22 @@ class FnEmitter:
                                 edits.append((toks[nx2].end, toks[nx2].end, ('\n', ac, ''), 'block2'))
                 k += 1
         scope_end_at_bclose = False
+        if in_heap:
+            # R15h  allocation:  rc_cell!(E)  ->  nd_alloc(E, Ghost(verif_depth), Ghost(verif_call_depth), Tracked(heap))
+            #       (Rc::new(RefCell::new(E)): a new node with the contents E; the two ghost values are declared by the contract)
+            k = bopen
+            while k < bclose:
+                t = toks[k]
+                if t.kind == 'id' and t.text == 'rc_cell':
+                    j = next_sig(toks, k)
+                    j2 = next_sig(toks, j)
+                    if toks[j].text == '!' and toks[j2].text == '(':
+                        cl = match_close(toks, j2)
+                        edits.append((t.start, toks[j2].end, 'nd_alloc(', None))
+                        edits.append((toks[cl].start, toks[cl].start, ', Ghost(verif_depth), Ghost(verif_call_depth), Tracked(heap)', None))
+                        self.counts['R15'] = self.counts.get('R15', 0) + 1
+                        k = j2
+                k += 1
         if in_heap:
             refmuts = {}
             k = bopen
@@ -663,7 +689,11 @@ class FnEmitter:
                             q += 1
                         lastq = prev_sig(toks, q)
                         semi = '' if toks[lastq].text in (';', '}', '{') else ';'
-                        edits.append((toks[q].start, toks[q].start, semi + ' nd_scope_end() ', None))
+                        if q == bclose and arrow is None:
+                            # a function without a result whose body declares the RefMut: it is dropped at the end of the body
+                            edits.append((toks[q].start, toks[q].start, semi + ' nd_release(&%s, Tracked(heap)); ' % N, None))
+                        else:
+                            edits.append((toks[q].start, toks[q].start, semi + ' nd_scope_end() ', None))
                         if q == bclose:
                             scope_end_at_bclose = True
                         k = sq[9]
@@ -1150,7 +1180,7 @@ class FnEmitter:
 
     def _wrap(self, out, item, attrs, segs):
         if item.owner:
-            out.add('impl %s {' % item.owner, {'k': 'gen'})
+            out.add((getattr(item, 'impl_header', None) or ('impl %s' % item.owner)) + ' {', {'k': 'gen'})
         for l, o in attrs:
             out.add(l, o)
         # merge segments into lines, origin = first contract origin on the line else first src
